@@ -206,6 +206,7 @@ def run_bounded(cid, tier, seed):
     rtc.import_repo()
     chk = bounded.CHECKS[cid]
     rng = random.Random(("%s|%s" % (seed, cid)))
+    rng_twin = random.Random(("%s|%s|twin" % (seed, cid)))      # its own stream: the twins must not shift the case stream of the generator
     out = {"id": cid, "evaluations": 0, "nontrivial": 0, "failures": [], "status": "ok", "samples": [], "doc": chk.doc.strip()}
     t0 = time.time()
     limit_s = 10.0 if tier == "quick" else 120.0
@@ -229,7 +230,7 @@ def run_bounded(cid, tier, seed):
             out["failures"].append({"inputs": js, "clause": cid, "detail": msg, "history": list(hist)})
             if len(out["failures"]) >= 5:
                 break
-        elif rng.random() < DERIVED_TWIN_P:
+        elif rng_twin.random() < DERIVED_TWIN_P:
             # derived-object twin (pyvc/bounded.py): the same case with the masks / kernels / meshes the check builds obtained as
             # derived objects of a parent that was used first -- same contents, so the check's own oracle must still pass
             try:
